@@ -30,7 +30,7 @@ LIBRARY = [
 NAME_TWINS = [
     {'id': 11, 'name': 'NaCl', 'kind': 'Solid', 'mw': '76.46', 'dens': '1', 'act': '1'},            # "NaCl" again: another molar mass
     {'id': 12, 'name': 'ethanol', 'kind': 'Liquid', 'mw': '46.07', 'dens': '0.81', 'act': '1'},     # "ethanol" again: another density
-    {'id': 13, 'name': 'lipase', 'kind': 'Solid', 'mw': '33000', 'dens': '1', 'act': '1'},         # "lipase" weighed as a solid
+    {'id': 13, 'name': 'lipase', 'kind': 'Solid', 'mw': '250', 'dens': '1', 'act': '1'},           # "lipase" weighed as a solid
 ]
 TWIN_OF = {11: 4, 12: 3, 13: 6}
 # a second lot of an enzyme: same name, different specific activity (Substance.__eq__ ignores the activity); used by directed cases only
@@ -306,6 +306,13 @@ class Impl:
     def run(self, ops, keep=False):
         obs = []
         for op in ops:
+            # an operand that does not exist because an earlier operation was refused: the operation cannot be run at all (the lookup
+            # fails in this harness, not in the library); marked so that no oracle judges it
+            refs = [r[k] for r in (op.get('src'), op.get('dst'), op.get('t')) if isinstance(r, dict) for k in ('c', 'p') if k in r] + \
+                   [op[k] for k in ('v', 'solventv') if k in op] + ([op['src']] if op.get('op') in ('solfrom', 'solfromc') else [])
+            if any(r not in self.env for r in refs):
+                obs.append({'ok': False, 'exc': 'KeyError', 'msg': 'operand missing (an earlier operation was refused)', 'skipped': True})
+                continue
             try:
                 out = self.exec_op(op)
             except Exception as e:  # noqa
